@@ -4,13 +4,14 @@
    Z, positive, Q, nat stay Coq inductives. *)
 From Coq Require Import Extraction ExtrOcamlBasic ExtrOcamlString.
 From Coq Require Import ZArith QArith List String.
-From Pico Require Import Num PyStr Value Entry_E1.
+From Pico Require Import Num PyStr Value Entry_E1 Entry_E4.
 Import ListNotations.
 Local Open Scope string_scope.
 
 Definition dispatch (orc : oracle) (name : string) (v : value) : value :=
   match entry_E1 orc name v with Some r => r | None =>
-  VL [VS "err"; VS "NoSuchEntry"] end.
+  match entry_E4 orc name v with Some r => r | None =>
+  VL [VS "err"; VS "NoSuchEntry"] end end.
 
 
 Extraction "picomodel.ml" dispatch.
